@@ -21,7 +21,9 @@ from ..convspace import Space, mag, norm
 from ..world import get_world
 
 TOL = Decimal("1e-5")
-MAGS = [3, 2.5, Decimal("1.5")]
+# Decimal(3) right after the int 3, in the same restored state: equal values of different
+# numeric types hash alike, so a memo keyed by the quantity would hand back the wrong type
+MAGS = [3, Decimal("3"), 2.5, Decimal("1.5")]
 
 # pools per dimension for the multi-factor tiers: names from several modules each
 POOLS = {
@@ -276,7 +278,7 @@ def _chunk(cases):
     out = {"n": 0, "returned": set(), "outcomes": {}, "viols": []}
     for k, (src, dst) in enumerate(cases):
         w.restore()
-        for m in MAGS[: 1 + (k % 3 == 0) * 2]:
+        for m in MAGS[: 2 + (k % 3 == 0) * 2]:
             oc, v = judge(sp, src, dst, m)
             if oc.startswith("skipped"):
                 continue
